@@ -557,6 +557,17 @@ def returns_of(f):
     return [n for n in walk_shallow(f.node) if isinstance(n, ast.Return)]
 
 
+def clone(node):
+    """deep copy of a syntax (sub)tree that does not climb the loader's `_parent` links out of it (a plain deepcopy would copy the
+    whole module through them, at a recursion depth that grows with the module)"""
+    import copy
+    par = getattr(node, "_parent", None)
+    memo = {}
+    if par is not None:
+        memo[id(par)] = par
+    return copy.deepcopy(node, memo)
+
+
 def _node_binds(n):
     """names (re)bound by CFG node n"""
     out = set()
@@ -859,9 +870,9 @@ def canon_text(f, e, depth=3):
             if isinstance(n.ctx, ast.Load) and self.d > 0:
                 ds = local_defs(f, n.id)
                 if len(ds) == 1 and not isinstance(ds[0], tuple) and isinstance(ds[0], ast.AST):
-                    return Inline(self.d - 1).visit(copy.deepcopy(ds[0]))
+                    return Inline(self.d - 1).visit(clone(ds[0]))
             return n
-    t = Inline(depth).visit(copy.deepcopy(e))
+    t = Inline(depth).visit(clone(e))
     bound = {}
     for y in ast.walk(t):
         if isinstance(y, ast.comprehension):
@@ -898,7 +909,7 @@ def inline_block(stmts):
     (t not read anywhere else in the block) becomes that statement with e in place of t.  Used to compare the arms of a
     switch independently of whether intermediate values were given names."""
     import copy
-    body = [copy.deepcopy(s) for s in stmts]
+    body = [clone(s) for s in stmts]
     changed = True
     while changed:
         changed = False
